@@ -48,6 +48,12 @@ def SeekFrom.Valid : SeekFrom → Prop
 instance (p : SeekFrom) : Decidable p.Valid := by
   cases p <;> unfold SeekFrom.Valid <;> exact inferInstance
 
+/-- `Current` is the kind that looks at the file before doing its arithmetic; `Start` and `End` convert
+their argument before the manager is called. -/
+def SeekFrom.isCurrent : SeekFrom → Bool
+  | .current _ => true
+  | _ => false
+
 /-- `u32::try_from(x: u64)`. -/
 def u64ToU32 (n : Nat) : Option Nat := if n ≤ U32_MAX then some n else none
 /-- `i64::checked_neg`: `None` exactly for `i64::MIN`. -/
@@ -56,6 +62,8 @@ def i64CheckedNeg (x : Int) : Option Int := if x = I64_MIN then none else some (
 def i64ToU32 (x : Int) : Option Nat := if 0 ≤ x ∧ x ≤ (U32_MAX : Int) then some x.toNat else none
 /-- `i32::try_from(x: i64)`. -/
 def i64ToI32 (x : Int) : Option Int := if I32_MIN ≤ x ∧ x ≤ I32_MAX then some x else none
+/-- `i64::checked_add`: `None` exactly when the sum leaves the `i64` range. -/
+def i64CheckedAdd (a b : Int) : Option Int := if I64_MIN ≤ a + b ∧ a + b ≤ I64_MAX then some (a + b) else none
 
 /-! ### Calling the manager -/
 
@@ -149,10 +157,12 @@ def close (f : Nat) : M Unit := call (closeFile f)
 def drop (f : Nat) : M Unit := ignoreErr (call (closeFile f))
 
 /-- `embedded_io::Read::read(buf)` with `buf.len() = n`: the bytes placed in the buffer (the
-returned count is their number).  An empty buffer makes no call at all. -/
+returned count is their number).  An empty buffer makes no call at all; otherwise the INHERENT
+`File::read(self, buf)` (since c0d40aa; `self.read(buf)` resolved to this trait method itself). -/
 def ioRead (f n : Nat) : M Bytes := if n = 0 then pure [] else read f n
 
-/-- `embedded_io::Write::write(buf)`: `Ok(buf.len())` whenever the inner `write` succeeds. -/
+/-- `embedded_io::Write::write(buf)`: `Ok(buf.len())` whenever the inherent `File::write(self, buf)`
+succeeds. -/
 def ioWrite (f : Nat) (buf : Bytes) : M Nat :=
   if buf.isEmpty then pure 0 else do
     write f buf
@@ -161,7 +171,10 @@ def ioWrite (f : Nat) (buf : Bytes) : M Nat :=
 /-- `embedded_io::Write::flush`. -/
 def ioFlush (f : Nat) : M Unit := flush f
 
-/-- `embedded_io::Seek::seek(pos)`: the result is `self.offset()` widened to `u64`. -/
+/-- `embedded_io::Seek::seek(pos)`: the result is `self.offset()` widened to `u64`.
+`Current(offset)` reads the position with the raw `file_offset` FIRST (so `LockError` / `BadHandle`
+come before any refusal of the arithmetic), computes `i64::from(current).checked_add(offset)`,
+converts the target to `u32` and seeks from the start. -/
 def ioSeek (f : Nat) (pos : SeekFrom) : M Nat := do
   match pos with
     | .start o => do
@@ -172,8 +185,11 @@ def ioSeek (f : Nat) (pos : SeekFrom) : M Nat := do
       let n ← orInvalidOffset (i64ToU32 neg)
       seekFromEnd f n
     | .current o => do
-      let n ← orInvalidOffset (i64ToI32 o)
-      seekFromCurrent f n
+      -- `self.volume_mgr.file_offset(self.raw_file)?`: the raw call, its error is returned
+      let current ← call (fileOffset f)
+      let target ← orInvalidOffset (i64CheckedAdd (current : Int) o)
+      let n ← orInvalidOffset (i64ToU32 target)
+      seekFromStart f n
   offset f
 end File
 
